@@ -132,6 +132,8 @@ type Config struct {
 	// DBLevel for queries with one slot / with more slots.
 	DBLevelSingle, DBLevelMulti int
 	Oracle                      Oracle
+	// DBFilter, when set, selects databases for multi-slot queries.
+	DBFilter func(g qgen.GQ, s qgen.DBSpec) bool
 	// Filter, when set, selects which generated queries take part.
 	Filter func(g qgen.GQ) bool
 }
@@ -184,6 +186,9 @@ func Run(r *core.Run, cfg Config) {
 		}
 		r.Count("queries", 1)
 		for _, sp := range specs {
+			if cfg.DBFilter != nil && !cfg.DBFilter(g, sp) {
+				continue
+			}
 			c := Case{G: g, DB: get(sp)}
 			r.Eval()
 			f, skip, nt := cfg.Oracle(c)
@@ -336,7 +341,7 @@ func Subject(c Case, f *Failure) map[string]string {
 		}
 	}
 	plan, _ := c.DB.Sess.Plan(c.G.SQL())
-	subj := map[string]string{"features": strings.Join(c.G.Tags, "+"), "layout": c.DB.Spec.LayoutClass(), "nulls": nulls, "plan": PlanOps(plan)}
+	subj := map[string]string{"features": strings.Join(c.G.Tags, "+"), "layout": c.DB.Spec.LayoutClass(), "layout_name": c.DB.Spec.Layout, "nulls": nulls, "plan": PlanOps(plan)}
 	for k, v := range f.Extra {
 		subj[k] = v
 	}
